@@ -11,6 +11,7 @@ import (
 	"net"
 	"net/netip"
 	"sort"
+	"sync"
 	"unsafe"
 
 	"github.com/daeuniverse/dae/common/consts"
@@ -100,4 +101,76 @@ func VerifC02DomainTable(addrs []netip.Addr, bitmap []uint32) ([]VerifC02DomainE
 	}
 	sort.Slice(out, func(i, j int) bool { return bytes.Compare(out[i].Key, out[j].Key) < 0 })
 	return out, nil
+}
+
+// ---------------------------------------------------------------------------------------------------
+// histories of DNS answers through the real domainRoutingTracker
+
+var verifC02ObserverMu sync.Mutex
+
+// VerifC02DomainHistory drives one real domainRoutingTracker the way controlPlaneCore.BatchUpdateDomainRouting /
+// BatchRemoveDomainRouting do (buildDomainRoutingOwnerSnapshot + syncOwner) and replays exactly the batches syncOwner
+// sends to domain_routing_map — seen through the repository's own hook VerifDomainRoutingBatchObserver — into a
+// simulated kernel map.
+type VerifC02DomainHistory struct {
+	t   *domainRoutingTracker
+	sim map[[4]uint32]bpfDomainRouting
+}
+
+func VerifC02NewDomainHistory() *VerifC02DomainHistory {
+	return &VerifC02DomainHistory{t: newDomainRoutingTracker(), sim: map[[4]uint32]bpfDomainRouting{}}
+}
+
+func (h *VerifC02DomainHistory) sync(owner string, snap domainRoutingOwnerSnapshot) error {
+	verifC02ObserverMu.Lock()
+	defer verifC02ObserverMu.Unlock()
+	prev := VerifDomainRoutingBatchObserver
+	defer func() { VerifDomainRoutingBatchObserver = prev }()
+	VerifDomainRoutingBatchObserver = func(update [][4]uint32, values []bpfDomainRouting, del [][4]uint32) {
+		// the order of syncOwner's two map calls: batch update, then batch delete
+		for i, k := range update {
+			h.sim[k] = values[i]
+		}
+		for _, k := range del {
+			delete(h.sim, k)
+		}
+	}
+	return h.t.syncOwner(nil, owner, snap)
+}
+
+// Answer: the DNS cache entry of `owner` (a name) now answers with addrs and carries `bitmap`
+// (= BatchUpdateDomainRouting on CacheAccessCallback).
+func (h *VerifC02DomainHistory) Answer(owner string, addrs []netip.Addr, bitmap []uint32) error {
+	cache := &DnsCache{DomainBitmap: bitmap, RouteOwnerKey: owner}
+	for _, a := range addrs {
+		if a.Is4() {
+			cache.Answer = append(cache.Answer, &dnsmessage.A{Hdr: dnsmessage.RR_Header{Name: "x.", Rrtype: dnsmessage.TypeA, Class: dnsmessage.ClassINET, Ttl: 60}, A: net.IP(a.AsSlice())})
+		} else {
+			cache.Answer = append(cache.Answer, &dnsmessage.AAAA{Hdr: dnsmessage.RR_Header{Name: "x.", Rrtype: dnsmessage.TypeAAAA, Class: dnsmessage.ClassINET, Ttl: 60}, AAAA: net.IP(a.AsSlice())})
+		}
+	}
+	snap, err := buildDomainRoutingOwnerSnapshot(cache)
+	if err != nil {
+		return err
+	}
+	return h.sync(owner, snap)
+}
+
+// Remove: the cache entry of `owner` is evicted (= BatchRemoveDomainRouting on CacheDeleteCallback).
+func (h *VerifC02DomainHistory) Remove(owner string) error {
+	return h.sync(owner, domainRoutingOwnerSnapshot{})
+}
+
+// Entries: the simulated domain_routing_map, sorted by key.
+func (h *VerifC02DomainHistory) Entries() []VerifC02DomainEntry {
+	out := make([]VerifC02DomainEntry, 0, len(h.sim))
+	for k, v := range h.sim {
+		k, v := k, v
+		out = append(out, VerifC02DomainEntry{
+			Key:   append([]byte(nil), unsafe.Slice((*byte)(unsafe.Pointer(&k)), unsafe.Sizeof(k))...),
+			Value: append([]byte(nil), unsafe.Slice((*byte)(unsafe.Pointer(&v)), unsafe.Sizeof(v))...),
+		})
+	}
+	sort.Slice(out, func(i, j int) bool { return bytes.Compare(out[i].Key, out[j].Key) < 0 })
+	return out
 }
